@@ -27,10 +27,9 @@ META = {
 }
 
 
-def case_interrupts(rec, n_warm, n_main, n_process, stager, twu=True):
+def case_interrupts(rec, n_warm, n_main, n_process, stager, twu=True, n_chain=2):
     rec.encoded(SA._sample_chain, SA._sample_chains_sequential, SA._sample_chains_parallel, SA._sample_chains_worker,
                 SA.MarkovChainMonteCarloMethod.sample_chains)
-    n_chain = 2
     full = SL.run(n_warm, n_main, n_chain=n_chain, n_process=n_process, trace_warm_up=twu, stager=stager, adapters="fast")
     total_calls = {"transition": n_chain * (n_warm + n_main), "trace": n_chain * ((n_warm if twu else 0) + n_main), "adapter": n_chain * n_warm}
     if n_process != 1:
@@ -81,8 +80,8 @@ def case_interrupts(rec, n_warm, n_main, n_process, stager, twu=True):
                     viol.setdefault("continues-after-interrupt", (f"interrupt at transition call {k}: {len(draws)} iterations were sampled", (site, k)))
     rec.note(f"{n} interrupt positions")
     for key, (msg, pos) in viol.items():
-        rec.candidate(key=f"interrupt:{key}", label=msg, payload={"args": [n_warm, n_main, n_process, stager, twu], "pos": list(pos)})
-    rec.sample({"n_warm": n_warm, "n_main": n_main, "n_process": n_process, "stager": stager, "positions": n})
+        rec.candidate(key=f"interrupt:{key}", label=msg, payload={"args": [n_warm, n_main, n_process, stager, twu, n_chain], "pos": list(pos)})
+    rec.sample({"n_warm": n_warm, "n_main": n_main, "n_process": n_process, "n_chain": n_chain, "stager": stager, "positions": n})
     rec.obligation(f"{n} interrupt positions (n_process={n_process}, {stager}): consistent prefix returned", [], z3.BoolVal(False), syntactic=True)
 
 
@@ -99,6 +98,10 @@ def cases(tier):
                             {"n_warm": 2, "n_main": 2, "n_process": n_process, "stager": stager, "twu": False}, timeout_s=900))
         out.append(Case(f"interrupt/p{n_process}/windowed111/4+2/untraced", case_interrupts,
                         {"n_warm": 4, "n_main": 2, "n_process": n_process, "stager": "windowed111", "twu": False}, timeout_s=900))
+    # chain counts other than two: a single chain (also with more worker processes than chains), three chains on two workers
+    for n_chain, n_process in ((1, 1), (1, 2), (3, 2)) + (((3, 1), (3, 3)) if th else ()):
+        out.append(Case(f"interrupt/p{n_process}/warmup/2+2/chains{n_chain}", case_interrupts,
+                        {"n_warm": 2, "n_main": 2, "n_process": n_process, "stager": "warmup", "n_chain": n_chain}, timeout_s=900))
     return out
 
 
@@ -107,8 +110,9 @@ def replay(cand):
     n_warm, n_main, n_process, stager = p["args"][:4]
     twu = p["args"][4] if len(p["args"]) > 4 else True
     site, k = p["pos"]
+    n_chain = p["args"][5] if len(p["args"]) > 5 else 2
     try:
-        res = SL.run(n_warm, n_main, n_chain=2, n_process=n_process, trace_warm_up=twu, stager=stager, adapters="fast", interrupt=(site, k))
+        res = SL.run(n_warm, n_main, n_chain=n_chain, n_process=n_process, trace_warm_up=twu, stager=stager, adapters="fast", interrupt=(site, k))
         detail = f"returned traces {res['traces']['pos']}"
     except BaseException as e:  # noqa: BLE001
         detail = f"{type(e).__name__} escapes sample_chains"
